@@ -1432,6 +1432,7 @@ Proof.
     + apply wpT_ret. inv0 K Kd C X1; auto; exact C.
   - discriminate.
   - discriminate.
+  - discriminate.
   - (* ConnectResult *)
     apply wpT_ret. inv0 K Kd C X; [flagK K|exact Kd|exact C].
   - (* EvWritable *)
